@@ -253,7 +253,17 @@ int main(int argc, char **argv) {
 			printf("RESULT ok\n");
 			return 0;
 		}
+		size_t l0 = (vf_leak_check() && __sanitizer_get_current_allocated_bytes) ? __sanitizer_get_current_allocated_bytes() : 0;
 		int rc = run_once(v, r);
+		if (rc == 0 && vf_leak_check() && __sanitizer_get_current_allocated_bytes) {
+			// same rule as in the generation loop: one-time initialisations grow once, a leak grows on every execution
+			size_t l1 = __sanitizer_get_current_allocated_bytes();
+			if (l1 > l0) {
+				Report q1; run_once(v, q1); size_t l2 = __sanitizer_get_current_allocated_bytes();
+				Report q2; run_once(v, q2); size_t l3 = __sanitizer_get_current_allocated_bytes();
+				if (l3 > l2 && l2 > l1) { rc = 1; r.sig = "leak"; char b[200]; snprintf(b, sizeof b, "allocated bytes grow by %zu on every execution of this case after all objects were deleted", l3 - l2); r.detail = b; }
+			}
+		}
 		printf("property %s replay %s (%zu choice bytes)\n", vf_prop_id, replay, v.size());
 		if (verbose || rc == 1) printf("case:\n%s\n", r.desc.c_str());
 		printf("nontrivial=%d excluded_known=%" PRIu64 "\n", (int) r.nontrivial, r.excluded_known);
